@@ -1,7 +1,503 @@
 /- Helper lemmas for C10 (query parsing, grouping, sorting). -/
-import SigV4.Spec.UriSpec
-import SigV4.Lemmas.Uri
+import SigV4.Props.C09
 
 namespace SigV4
+
+/-! ### Insertion sort -/
+
+section SortSec
+variable {α : Type} (le : α → α → Bool)
+
+theorem insertBy_perm (x : α) (l : List α) : (insertBy le x l).Perm (x :: l) := by
+  induction l with
+  | nil => exact List.Perm.refl _
+  | cons y ys ih =>
+    simp only [insertBy]
+    split
+    · exact List.Perm.refl _
+    · exact (List.Perm.cons y ih).trans (List.Perm.swap x y ys)
+
+theorem sortBy_perm (l : List α) : (sortBy le l).Perm l := by
+  induction l with
+  | nil => exact List.Perm.refl _
+  | cons x xs ih =>
+    simp only [sortBy]
+    exact (insertBy_perm le x _).trans (List.Perm.cons x ih)
+
+variable {le}
+
+theorem insertBy_pairwise
+    (tot : ∀ a b, le a b = true ∨ le b a = true)
+    (trans : ∀ a b c, le a b = true → le b c = true → le a c = true)
+    (x : α) (l : List α) (h : l.Pairwise (fun a b => le a b = true)) :
+    (insertBy le x l).Pairwise (fun a b => le a b = true) := by
+  induction l with
+  | nil => simp [insertBy]
+  | cons y ys ih =>
+    simp only [insertBy]
+    rw [List.pairwise_cons] at h
+    split
+    · rename_i hxy
+      rw [List.pairwise_cons]
+      refine ⟨?_, List.pairwise_cons.2 h⟩
+      intro z hz
+      rcases List.mem_cons.1 hz with rfl | hz
+      · exact hxy
+      · exact trans _ _ _ hxy (h.1 z hz)
+    · rename_i hxy
+      have hyx : le y x = true := by
+        rcases tot x y with h' | h'
+        · exact absurd h' hxy
+        · exact h'
+      rw [List.pairwise_cons]
+      refine ⟨?_, ih h.2⟩
+      intro z hz
+      rcases List.mem_cons.1 ((insertBy_perm le x ys).mem_iff.1 hz) with rfl | hz
+      · exact hyx
+      · exact h.1 z hz
+
+theorem sortBy_pairwise
+    (tot : ∀ a b, le a b = true ∨ le b a = true)
+    (trans : ∀ a b c, le a b = true → le b c = true → le a c = true)
+    (l : List α) : (sortBy le l).Pairwise (fun a b => le a b = true) := by
+  induction l with
+  | nil => simp [sortBy]
+  | cons x xs ih => exact insertBy_pairwise tot trans x _ ih
+
+theorem sortBy_eq_of_perm
+    (tot : ∀ a b, le a b = true ∨ le b a = true)
+    (trans : ∀ a b c, le a b = true → le b c = true → le a c = true)
+    (antisymm : ∀ a b, le a b = true → le b a = true → a = b)
+    {l l' : List α} (h : l.Perm l') : sortBy le l = sortBy le l' :=
+  List.Perm.eq_of_pairwise (fun a b _ _ => antisymm a b)
+    (sortBy_pairwise tot trans l) (sortBy_pairwise tot trans l')
+    (((sortBy_perm le l).trans h).trans (sortBy_perm le l').symm)
+
+end SortSec
+
+/-! ### The byte-string and pair orders -/
+
+theorem bytesLe_total (a b : Bytes) : bytesLe a b = true ∨ bytesLe b a = true := by
+  induction a generalizing b with
+  | nil => simp [bytesLe]
+  | cons x xs ih =>
+    cases b with
+    | nil => simp [bytesLe]
+    | cons y ys =>
+      simp only [bytesLe, Bool.or_eq_true, Bool.and_eq_true, decide_eq_true_eq, beq_iff_eq]
+      by_cases hxy : x < y
+      · exact .inl (.inl hxy)
+      · by_cases hyx : y < x
+        · exact .inr (.inl hyx)
+        · have : x = y := by
+            rw [UInt8.lt_iff_toNat_lt] at hxy hyx
+            exact UInt8.toNat_inj.1 (by omega)
+          subst this
+          rcases ih ys with h | h
+          · exact .inl (.inr ⟨rfl, h⟩)
+          · exact .inr (.inr ⟨rfl, h⟩)
+
+theorem bytesLe_trans (a b c : Bytes) (hab : bytesLe a b = true) (hbc : bytesLe b c = true) :
+    bytesLe a c = true := by
+  induction a generalizing b c with
+  | nil => simp [bytesLe]
+  | cons x xs ih =>
+    cases b with
+    | nil => simp [bytesLe] at hab
+    | cons y ys =>
+      cases c with
+      | nil => simp [bytesLe] at hbc
+      | cons z zs =>
+        simp only [bytesLe, Bool.or_eq_true, Bool.and_eq_true, decide_eq_true_eq, beq_iff_eq] at *
+        rcases hab with hab | ⟨rfl, hab⟩
+        · rcases hbc with hbc | ⟨rfl, _⟩
+          · left
+            rw [UInt8.lt_iff_toNat_lt] at *
+            omega
+          · exact .inl hab
+        · rcases hbc with hbc | ⟨rfl, hbc⟩
+          · exact .inl hbc
+          · exact .inr ⟨rfl, ih _ _ hab hbc⟩
+
+theorem bytesLe_antisymm (a b : Bytes) (hab : bytesLe a b = true) (hba : bytesLe b a = true) :
+    a = b := by
+  induction a generalizing b with
+  | nil =>
+    cases b with
+    | nil => rfl
+    | cons y ys => simp [bytesLe] at hba
+  | cons x xs ih =>
+    cases b with
+    | nil => simp [bytesLe] at hab
+    | cons y ys =>
+      simp only [bytesLe, Bool.or_eq_true, Bool.and_eq_true, decide_eq_true_eq, beq_iff_eq] at *
+      rcases hab with hab | ⟨rfl, hab⟩
+      · rcases hba with hba | ⟨rfl, _⟩
+        · rw [UInt8.lt_iff_toNat_lt] at *
+          omega
+        · rw [UInt8.lt_iff_toNat_lt] at *
+          omega
+      · rcases hba with hba | ⟨_, hba⟩
+        · rw [UInt8.lt_iff_toNat_lt] at *
+          omega
+        · rw [ih _ hab hba]
+
+theorem bytesLe_refl (a : Bytes) : bytesLe a a = true := by
+  rcases bytesLe_total a a with h | h <;> exact h
+
+theorem pairLe_total (x y : Bytes × Bytes) : pairLe x y = true ∨ pairLe y x = true := by
+  unfold pairLe
+  by_cases h : x.1 = y.1
+  · rw [if_pos h, if_pos h.symm]; exact bytesLe_total _ _
+  · rw [if_neg h, if_neg (Ne.symm h)]; exact bytesLe_total _ _
+
+theorem pairLe_trans (x y z : Bytes × Bytes) (hxy : pairLe x y = true) (hyz : pairLe y z = true) :
+    pairLe x z = true := by
+  unfold pairLe at *
+  by_cases h1 : x.1 = y.1
+  · rw [if_pos h1] at hxy
+    by_cases h2 : y.1 = z.1
+    · rw [if_pos h2] at hyz
+      rw [if_pos (h1.trans h2)]
+      exact bytesLe_trans _ _ _ hxy hyz
+    · rw [if_neg h2] at hyz
+      rw [if_neg (h1 ▸ h2), h1]
+      exact hyz
+  · rw [if_neg h1] at hxy
+    by_cases h2 : y.1 = z.1
+    · rw [if_pos h2] at hyz
+      rw [if_neg (h2 ▸ h1), ← h2]
+      exact hxy
+    · rw [if_neg h2] at hyz
+      have h3 := bytesLe_trans _ _ _ hxy hyz
+      by_cases h4 : x.1 = z.1
+      · exfalso
+        rw [h4] at hxy
+        exact h2 (bytesLe_antisymm _ _ hyz hxy)
+      · rw [if_neg h4]; exact h3
+
+theorem pairLe_antisymm (x y : Bytes × Bytes) (hxy : pairLe x y = true) (hyx : pairLe y x = true) :
+    x = y := by
+  unfold pairLe at *
+  by_cases h : x.1 = y.1
+  · rw [if_pos h] at hxy
+    rw [if_pos h.symm] at hyx
+    exact Prod.ext h (bytesLe_antisymm _ _ hxy hyx)
+  · rw [if_neg h] at hxy
+    rw [if_neg (Ne.symm h)] at hyx
+    exact absurd (bytesLe_antisymm _ _ hxy hyx) h
+
+theorem sortBy_pairLe_eq_of_perm {l l' : List (Bytes × Bytes)} (h : l.Perm l') :
+    sortBy pairLe l = sortBy pairLe l' :=
+  sortBy_eq_of_perm pairLe_total pairLe_trans pairLe_antisymm h
+
+/-! ### Grouping -/
+
+theorem flattenMap_nil : flattenMap [] = [] := rfl
+
+theorem flattenMap_cons (kv : Bytes × List Bytes) (m : QueryMap) :
+    flattenMap (kv :: m) = kv.2.map (fun v => (kv.1, v)) ++ flattenMap m := by
+  simp [flattenMap]
+
+theorem flattenMap_assocPush_perm (m : QueryMap) (k v : Bytes) :
+    (flattenMap (assocPush m k v)).Perm (flattenMap m ++ [(k, v)]) := by
+  induction m with
+  | nil => simp [assocPush, flattenMap]
+  | cons kv rest ih =>
+    obtain ⟨k', vs⟩ := kv
+    simp only [assocPush]
+    split
+    · rename_i hk
+      subst hk
+      simp only [flattenMap_cons, List.map_append, List.map_cons, List.map_nil, List.append_assoc]
+      exact List.Perm.append_left _ List.perm_append_comm
+    · simp only [flattenMap_cons, List.append_assoc]
+      exact List.Perm.append_left _ ih
+
+theorem flattenMap_foldl_perm (l : List (Bytes × Bytes)) (m0 : QueryMap) :
+    (flattenMap (l.foldl (fun m kv => assocPush m kv.1 kv.2) m0)).Perm (flattenMap m0 ++ l) := by
+  induction l generalizing m0 with
+  | nil => simp
+  | cons x xs ih =>
+    simp only [List.foldl_cons]
+    refine (ih _).trans ?_
+    have := (flattenMap_assocPush_perm m0 x.1 x.2).append_right xs
+    simpa using this
+
+theorem keys_assocPush (m : QueryMap) (k v : Bytes) :
+    (assocPush m k v).map (·.1) = if k ∈ m.map (·.1) then m.map (·.1) else m.map (·.1) ++ [k] := by
+  induction m with
+  | nil => simp [assocPush]
+  | cons kv rest ih =>
+    obtain ⟨k', vs⟩ := kv
+    simp only [assocPush]
+    by_cases hk : k' = k
+    · subst hk; simp
+    · rw [if_neg hk]
+      simp only [List.map_cons, ih, List.mem_cons]
+      have hk' : ¬ k = k' := fun h => hk h.symm
+      by_cases hm : k ∈ rest.map (·.1)
+      · simp [hm]
+      · simp [hm, hk']
+
+theorem nodup_keys_assocPush (m : QueryMap) (k v : Bytes) (h : (m.map (·.1)).Nodup) :
+    ((assocPush m k v).map (·.1)).Nodup := by
+  rw [keys_assocPush]
+  split
+  · exact h
+  · rename_i hk
+    rw [List.nodup_append]
+    refine ⟨h, by simp, ?_⟩
+    intro a ha b hb
+    simp only [List.mem_singleton] at hb
+    subst hb
+    intro hab; subst hab; exact hk ha
+
+theorem filter_flattenMap_of_not_mem (m : QueryMap) (k : Bytes) (h : k ∉ m.map (·.1)) :
+    (flattenMap m).filter (·.1 = k) = [] := by
+  rw [List.filter_eq_nil_iff]
+  intro x hx
+  simp only [flattenMap, List.mem_flatMap, List.mem_map] at hx
+  obtain ⟨kv, hkv, v, _, rfl⟩ := hx
+  simp only [decide_eq_true_eq]
+  intro hk
+  exact h (List.mem_map.2 ⟨kv, hkv, hk⟩)
+
+theorem flattenMap_assocPush_filter (m : QueryMap) (k v n : Bytes) (h : (m.map (·.1)).Nodup) :
+    (flattenMap (assocPush m k v)).filter (·.1 = n) = (flattenMap m ++ [(k, v)]).filter (·.1 = n) := by
+  induction m with
+  | nil => simp [assocPush, flattenMap]
+  | cons kv rest ih =>
+    obtain ⟨k', vs⟩ := kv
+    simp only [List.map_cons, List.nodup_cons] at h
+    simp only [assocPush]
+    split
+    · rename_i hk
+      subst hk
+      simp only [flattenMap_cons, List.map_append, List.map_cons, List.map_nil, List.append_assoc,
+        List.filter_append]
+      by_cases hn : k' = n
+      · subst hn
+        rw [filter_flattenMap_of_not_mem rest k' h.1]
+        simp
+      · simp [hn]
+    · simp only [flattenMap_cons, List.append_assoc, List.filter_append]
+      rw [ih h.2, List.filter_append]
+
+theorem flattenMap_foldl_filter (l : List (Bytes × Bytes)) (m0 : QueryMap) (n : Bytes)
+    (h : (m0.map (·.1)).Nodup) :
+    (flattenMap (l.foldl (fun m kv => assocPush m kv.1 kv.2) m0)).filter (·.1 = n)
+      = (flattenMap m0 ++ l).filter (·.1 = n) := by
+  induction l generalizing m0 with
+  | nil => simp
+  | cons x xs ih =>
+    simp only [List.foldl_cons]
+    rw [ih _ (nodup_keys_assocPush m0 x.1 x.2 h)]
+    rw [List.filter_append, flattenMap_assocPush_filter m0 x.1 x.2 n h]
+    simp only [List.filter_append, List.append_assoc]
+    rw [← List.filter_append (l₁ := [(x.fst, x.snd)])]
+    rfl
+
+theorem queryPairs_eq_filter (m : QueryMap) :
+    queryPairs m = (flattenMap m).filter fun kv => kv.1 ≠ X_AMZ_SIGNATURE := by
+  induction m with
+  | nil => rfl
+  | cons kv rest ih =>
+    rw [flattenMap_cons, List.filter_append, ← ih]
+    unfold queryPairs
+    by_cases hk : kv.1 = X_AMZ_SIGNATURE
+    · simp [hk]
+    · simp only [hk, List.filter_map, Function.comp_def, List.filter_cons, ne_eq, not_false_eq_true,
+        decide_true, if_true, List.flatMap_cons]
+      congr 2
+      exact (List.filter_eq_self.2 fun _ _ => rfl).symm
+
+/-! ### `mapM` in `Option` -/
+
+theorem optMapM_cons {α β : Type} (f : α → Option β) (a : α) (l : List α) :
+    (a :: l).mapM f = (f a).bind fun b => (l.mapM f).map (b :: ·) := by
+  rw [List.mapM_cons]
+  cases f a <;> cases l.mapM f <;> rfl
+
+/-- `mapM f l` is determined by `l.map f`. -/
+theorem optMapM_eq_of_map_eq {α α' β : Type} (f : α → Option β) (g : α' → Option β)
+    (l : List α) (l' : List α') (h : l.map f = l'.map g) : l.mapM f = l'.mapM g := by
+  induction l generalizing l' with
+  | nil =>
+    cases l' with
+    | nil => rfl
+    | cons _ _ => simp at h
+  | cons a as ih =>
+    cases l' with
+    | nil => simp at h
+    | cons b bs =>
+      simp only [List.map_cons, List.cons.injEq] at h
+      rw [optMapM_cons, optMapM_cons, h.1, ih bs h.2]
+
+/-- Permuting the input of `mapM` permutes the output (and failure is order-independent). -/
+theorem optMapM_perm {α β : Type} (f : α → Option β) {l l' : List α} (h : l.Perm l') :
+    (l.mapM f = none ∧ l'.mapM f = none) ∨
+      ∃ r r', l.mapM f = some r ∧ l'.mapM f = some r' ∧ r.Perm r' := by
+  induction h with
+  | nil => exact .inr ⟨[], [], rfl, rfl, List.Perm.refl _⟩
+  | cons a _ ih =>
+    rw [optMapM_cons, optMapM_cons]
+    cases f a with
+    | none => exact .inl ⟨rfl, rfl⟩
+    | some b =>
+      rcases ih with ⟨h1, h2⟩ | ⟨r, r', h1, h2, hp⟩
+      · rw [h1, h2]; exact .inl ⟨rfl, rfl⟩
+      · rw [h1, h2]; exact .inr ⟨_, _, rfl, rfl, hp.cons b⟩
+  | swap a b l =>
+    simp only [optMapM_cons]
+    cases f a <;> cases f b <;> cases l.mapM f <;> simp [List.Perm.swap]
+  | trans _ _ ih1 ih2 =>
+    rcases ih1 with ⟨h1, h2⟩ | ⟨r, r', h1, h2, hp⟩
+    · rcases ih2 with ⟨h3, h4⟩ | ⟨s, s', h3, h4, hq⟩
+      · exact .inl ⟨h1, h4⟩
+      · rw [h2] at h3; cases h3
+    · rcases ih2 with ⟨h3, h4⟩ | ⟨s, s', h3, h4, hq⟩
+      · rw [h2] at h3; cases h3
+      · rw [h2] at h3; cases h3
+        exact .inr ⟨_, _, h1, h4, hp.trans hq⟩
+
+/-! ### The parser loop -/
+
+theorem queryLoop_eq_spec (comps : List Bytes) (m : QueryMap) :
+    queryLoop comps m =
+      optToOutcome .MalformedQueryString
+        (((comps.filter (· ≠ [])).mapM decodeComponent).map fun ps =>
+          (ps.map encPair).foldl (fun m kv => assocPush m kv.1 kv.2) m) := by
+  induction comps generalizing m with
+  | nil => rfl
+  | cons comp rest ih =>
+    unfold queryLoop
+    by_cases hc : comp = []
+    · simp [hc, ih]
+    · rw [if_neg hc]
+      have hf : (comp :: rest).filter (· ≠ []) = comp :: rest.filter (· ≠ []) := by
+        simp [hc]
+      rw [hf, optMapM_cons]
+      rcases hs : splitFirst 0x3D comp with ⟨key, value?⟩
+      simp only [C09.normElem_eq_spec]
+      cases hk : pctDecode true key with
+      | none =>
+        have hd : decodeComponent comp = none := by simp [decodeComponent, hs, hk]
+        simp [hd, optToOutcome, elemErr]
+      | some dk =>
+        cases hv : pctDecode true (value?.getD []) with
+        | none =>
+          have hd : decodeComponent comp = none := by simp [decodeComponent, hs, hk, hv]
+          simp [hd, optToOutcome, elemErr]
+        | some dv =>
+          have hd : decodeComponent comp = some (dk, dv) := by simp [decodeComponent, hs, hk, hv]
+          simp only [hd, optToOutcome, Option.map_some, ih, Option.bind_some]
+          cases List.mapM decodeComponent (List.filter (fun x => decide (x ≠ [])) rest) with
+          | none => rfl
+          | some ps => simp [encPair]
+
+/-! ### Top-level consequences -/
+
+theorem groupPairs_perm' (l : List (Bytes × Bytes)) : (flattenMap (groupPairs l)).Perm l := by
+  have := flattenMap_foldl_perm l []
+  simpa [groupPairs, flattenMap_nil] using this
+
+theorem groupPairs_order' (l : List (Bytes × Bytes)) (k : Bytes) :
+    (flattenMap (groupPairs l)).filter (·.1 = k) = l.filter (·.1 = k) := by
+  have := flattenMap_foldl_filter l [] k (by simp)
+  simpa [groupPairs, flattenMap_nil] using this
+
+theorem refQueryPairs_nil : refQueryPairs [] = some [] := rfl
+
+theorem parseQuery_eq_spec' (q : Bytes) :
+    parseQuery q =
+      optToOutcome .MalformedQueryString
+        ((refQueryPairs q).map fun ps => groupPairs (ps.map encPair)) := by
+  unfold parseQuery
+  split
+  · rename_i hq
+    subst hq
+    rfl
+  · exact queryLoop_eq_spec _ _
+
+theorem canonQuery_groupPairs (ps : List (Bytes × Bytes)) :
+    canonQuery (groupPairs (ps.map encPair)) = refCanonQuery ps := by
+  unfold canonQuery refCanonQuery
+  rw [queryPairs_eq_filter]
+  congr 2
+  exact sortBy_pairLe_eq_of_perm ((groupPairs_perm' _).filter _)
+
+theorem parseQuery_canon (q : Bytes) :
+    (parseQuery q).map canonQuery =
+      optToOutcome .MalformedQueryString ((refQueryPairs q).map refCanonQuery) := by
+  rw [parseQuery_eq_spec']
+  cases refQueryPairs q with
+  | none => rfl
+  | some ps => simp [optToOutcome, canonQuery_groupPairs]
+
+theorem refCanonQuery_perm {ps ps' : List (Bytes × Bytes)} (h : ps.Perm ps') :
+    refCanonQuery ps = refCanonQuery ps' := by
+  unfold refCanonQuery
+  congr 2
+  exact sortBy_pairLe_eq_of_perm ((h.map _).filter _)
+
+theorem canonQuery_perm {m m' : QueryMap} (h : m.Perm m') : canonQuery m = canonQuery m' := by
+  unfold canonQuery
+  congr 2
+  apply sortBy_pairLe_eq_of_perm
+  unfold queryPairs
+  exact (h.filter _).flatMap_right _
+
+theorem parseQuery_canon_of_comp_perm (q q' : Bytes)
+    (h : (splitOn 0x26 q).Perm (splitOn 0x26 q')) :
+    (parseQuery q).map canonQuery = (parseQuery q').map canonQuery := by
+  rw [parseQuery_canon, parseQuery_canon]
+  unfold refQueryPairs
+  rcases optMapM_perm decodeComponent (h.filter (· ≠ [])) with ⟨h1, h2⟩ | ⟨r, r', h1, h2, hp⟩
+  · rw [h1, h2]
+  · rw [h1, h2]
+    simp [refCanonQuery_perm hp]
+
+theorem parseQuery_canon_of_filter_eq (q q' : Bytes)
+    (h : (splitOn 0x26 q).filter (· ≠ []) = (splitOn 0x26 q').filter (· ≠ [])) :
+    (parseQuery q).map canonQuery = (parseQuery q').map canonQuery := by
+  rw [parseQuery_canon, parseQuery_canon]
+  unfold refQueryPairs
+  rw [h]
+
+theorem parseQuery_canon_of_decode_eq (q q' : Bytes)
+    (h : ((splitOn 0x26 q).filter (· ≠ [])).map decodeComponent
+        = ((splitOn 0x26 q').filter (· ≠ [])).map decodeComponent) :
+    (parseQuery q).map canonQuery = (parseQuery q').map canonQuery := by
+  rw [parseQuery_canon, parseQuery_canon]
+  unfold refQueryPairs
+  rw [optMapM_eq_of_map_eq _ _ _ _ h]
+
+theorem pairLe_iff (x y : Bytes × Bytes) :
+    pairLe x y = true ↔
+      (x.1 ≠ y.1 ∧ bytesLe x.1 y.1 = true) ∨ (x.1 = y.1 ∧ bytesLe x.2 y.2 = true) := by
+  unfold pairLe
+  by_cases h : x.1 = y.1
+  · simp [h]
+  · simp [h]
+
+theorem parseQuery_err_kind' (q : Bytes) :
+    (∀ k, parseQuery q = .err k → k = .MalformedQueryString) ∧
+      (∀ site, parseQuery q ≠ .panic site) := by
+  rw [parseQuery_eq_spec']
+  cases refQueryPairs q with
+  | none =>
+    refine ⟨?_, ?_⟩
+    · intro k hk
+      simp only [Option.map_none, optToOutcome, Outcome.err.injEq] at hk
+      exact hk.symm
+    · intro site hs
+      simp [optToOutcome] at hs
+  | some ps =>
+    refine ⟨?_, ?_⟩
+    · intro k hk
+      simp [optToOutcome] at hk
+    · intro site hs
+      simp [optToOutcome] at hs
 
 end SigV4
